@@ -201,8 +201,10 @@ def run_probes(kind, z, table, queries, single=False):
     args = comp_args(kind, z, table)
     groups = [[q] for q in queries] if (kind == "pmux" or single) else [queries]
     out = []
-    for g in groups:
-        branches = [{"v": v, "i": i, "kind": kind, "args": args} for (_c, i, v) in g]
+    for gi, g in enumerate(groups):
+        # every second mux probe runs from its second input (first input at 0 V)
+        branches = [{"v": v, "i": i, "kind": kind, "args": args, "dead_first": kind == "pmux" and gi % 2 == 1}
+                    for (_c, i, v) in g]
         desc, names = probe.probe_desc(branches)
         rows, obs, sys_, df, err = probe.solve_probe(desc)
         for (c, i, v), n in zip(g, names):
